@@ -460,7 +460,11 @@ def correspondence_apply(ctx, n):
                 for i, e in enumerate(row):
                     me, ie = unopt(e), jac[j][i]
                     if (me is None) != (ie is None):
-                        bad.append(f'presence of entry y{j},x{i}')
+                        # an entry whose exact value is zero (the applied functions cancel at this steady state) may survive in floating point with coefficients at the level of the
+                        # numerical-differentiation error; absent vs present-but-negligible is not a disagreement
+                        other = ie if me is None else [[el[0], el[1], F(el[2])] for el in me]
+                        if any(abs(float(el[2])) > 1e-8 for el in other):
+                            bad.append(f'presence of entry y{j},x{i}')
                     elif me is not None:
                         md = {(int(el[0]), int(el[1])): F(el[2]) for el in me}
                         idd = {(int(el[0]), int(el[1])): el[2] for el in ie}
@@ -541,7 +545,15 @@ def correspondence(ctx):
                 model = dict(ss=[[int(x[0]), int(x[1])] for x in vm[0]],
                              jac=[[None if unopt(e) is None else sorted([[int(el[0]), int(el[1]), int(el[2][0]), int(el[2][1])] for el in unopt(e)]) for e in row] for row in vm[1]],
                              imp=[[[int(x[0]), int(x[1])] for x in row] for row in vm[2]])
-                ok = got['ss'] == model['ss'] and got['jac'] == model['jac'] and (got['imp'] is None or got['imp'] == model['imp'])
+                # the implementation reports deviations fl(level - ss): exact unless the magnitudes of level and steady state span more than 53 bits, then within two roundings of the larger one
+                def imp_ok():
+                    for row_i, row_m, s_ in zip(imp, model['imp'], ssv):
+                        for v_, m_ in zip(row_i, row_m):
+                            lev = Fraction(m_[0], m_[1])
+                            if abs(Fraction(float(v_)) + Fraction(float(s_)) - lev) > Fraction(1, 2 ** 50) * max(abs(lev), abs(Fraction(float(s_)))):
+                                return False
+                    return all(len(a_) == len(b_) for a_, b_ in zip(imp, model['imp'])) and len(imp) == len(model['imp'])
+                ok = got['ss'] == model['ss'] and got['jac'] == model['jac'] and (got['imp'] is None or got['imp'] == model['imp'] or imp_ok())
         except Exception as ex:
             got, ok, model = f'raised {type(ex).__name__}: {ex}', False, None
         if not ok:
